@@ -87,7 +87,8 @@ func loopTagCompiler(node render.BlockNode) (func(io.Writer, render.Context) err
 
 		iter := makeIterator(val)
 		if iter == nil {
-			return nil
+			// nil, and values that cannot be iterated, select nothing
+			iter = sliceWrapper(reflect.ValueOf([]any{}))
 		}
 
 		iter, err = applyLoopModifiers(stmt.Loop, ctx, iter)
